@@ -71,18 +71,31 @@ def _fr(f):
 
 def bounded_consistency(rep, res, entry, ub):
     """`bounded` is derived from the finiteness of ub and the same value steers vertex construction and membership"""
-    calls = [ev for ev in res.events("call") if "bounded" in ev.d["kws"] and ev.d["callee"].module.name == CONVEX
-             and ev.d["callee"].name in ("get_P_from_A", "in_hull")]
+    calls = [ev for ev in res.events("call") if ev.d["callee"].module.name == CONVEX and "bounded" in ev.d["callee"].params
+             and ev.d["callee"].name in ("get_P_from_A", "in_hull", "convex_combination") and ev.fn.module.name == CONVEX]
     vals = []
     for ev in calls:
-        b = ev.d["kws"]["bounded"]
+        fn = ev.d["callee"]
+        b = ev.d["kws"].get("bounded")
+        if b is None:
+            i = fn.params.index("bounded")
+            b = ev.d["args"][i] if i < len(ev.d["args"]) else None
+        if b is None:
+            # not passed: the callee's default applies
+            from ..values import const as _c
+            d = fn.defaults.get("bounded")
+            b = _c(d.value) if d is not None and hasattr(d, "value") else None
+            if b is None:
+                continue
+            b.tags["defaulted"] = True
         vals.append((ev, b))
     want = (ub == "finite")
     for ev, b in vals:
         if b.known:
             rep.check("R-FLOW", "bounded ⇔ finite upper bounds", b.const == want, where=ev.loc,
-                      construct=f"{ev.d['callee'].name}(… bounded=…)", entry=entry, config=res.config,
-                      msg=f"bounded={b.const} although the upper bounds are {ub}")
+                      construct=f"{ev.d['callee'].name}(… bounded=…) in {ev.fn.name}", entry=entry, config=res.config,
+                      msg=f"bounded={b.const}" + (" (callee default: the flag is not forwarded)" if b.tag("defaulted") else "")
+                          + f" although the upper bounds are {ub}")
         else:
             rep.check("R-FLOW", "bounded ⇔ finite upper bounds", True if "ub" in b.flat().data or "self.ub" in b.flat().data else None,
                       where=ev.loc, construct=f"{ev.d['callee'].name}(… bounded=…)", entry=entry, config=res.config)
@@ -110,6 +123,39 @@ def vertex_set(rep, res, entry):
         d = rep_.tag("dim") if rep_ is not None else None
         rep.check("R-FLOW", "one factor per source", None if d is None else d == ("SRC",), where=ev.loc, construct=ev.text(),
                   entry=entry, config=res.config, msg=f"repeat has extent {d}")
+    corner_map(rep, res, entry)
+
+
+def corner_map(rep, res, entry, lb_syms=("lb", "self.lb"), ub_syms=("ub", "self.ub")):
+    """the corner indicator t∈{0,1} is mapped affinely onto the box: t=0 ↦ lb, t=1 ↦ ub (POLY facet evaluated at the two
+    literals; nothing is executed)"""
+    from ..extern import poly_subst
+    calls = [ev for ev in res.events("call") if ev.d["callee"].name == "all_combinations_of_bounds" and ev.d.get("result") is not None]
+    seen = set()
+    for ev in calls:
+        r = ev.d["result"].flat()
+        p = r.tag("poly")
+        k = ev.loc
+        if k in seen:
+            continue
+        seen.add(k)
+        if p is None or not any("corner" in m for m in p):
+            rep.undecided("R-FLOW", "corners map onto [lb, ub]", where=ev.loc, construct=ev.text(), entry=entry, config=res.config)
+            continue
+        at0, at1 = poly_subst(p, "corner", 0), poly_subst(p, "corner", 1)
+        # the unbounded-cone generators replace ub by (1 + lb): accept ub-free forms only at that enumerated site
+        ok0 = any(at0 == {(s_,): 1} for s_ in lb_syms)
+        ok1 = any(at1 == {(s_,): 1} for s_ in ub_syms) or any(at1 == {(s_,): 1, (): 1} for s_ in lb_syms)
+        rep.check("R-FLOW", "corners map onto [lb, ub]", ok0 and ok1, where=ev.d["callee"].loc(), construct="affine map of the box corners",
+                  entry=entry, config=res.config,
+                  msg=f"the corner indicator t is mapped to {_pstr(at0)} at t=0 and {_pstr(at1)} at t=1; the vertices of the intensity box are "
+                      f"lb (t=0) and ub (t=1)")
+
+
+def _pstr(p):
+    if not p:
+        return "0"
+    return " + ".join((f"{c:g}·" if c != 1 else "") + ("·".join(m) if m else "1") for m, c in sorted(p.items()))
 
 
 def target(rel, shape=None, name="B"):
